@@ -95,6 +95,12 @@ func c07Exec(op string) string {
 		if note := lastIndexNote(m, path, subs, vs, err); note != "" {
 			return showRes(vs, err) + " | " + note
 		}
+		if hashStr(op)%3 == 0 && arr == 0 {
+			// the wrappers named among the observation points, beside the core composition
+			if note := wrapValuesForPath(m, path, subs); note != "" {
+				return showRes(vs, err) + " | LASTINDEX-OR-" + note
+			}
+		}
 		return showRes(vs, err)
 	case "vfp1":
 		m := c.mapVal()
@@ -409,8 +415,21 @@ func c07Gen(r *Rng, n int) []string {
 				}
 			}
 		}
+		starKey := r.P(5)
+		if starKey {
+			// an entry whose key is literally "*" beside others: a '*' step still selects every entry
+			w := map[string]interface{}{"*": r.Scalar(&cfg), "a": r.Value(&cfg, 2, false), "b": r.Scalar(&cfg)}
+			if r.Bool() {
+				m["w"] = w
+			} else {
+				m["w"] = []interface{}{w, map[string]interface{}{"a": "z"}}
+			}
+		}
 		for j := 0; j < 4; j++ {
 			path := r.DerivedPath(m, true, 5)
+			if starKey && j < 2 {
+				path = r.Pick([]string{"w.*", "*.*", "w.*.a", "w.a", "*"})
+			}
 			if lookAhead && r.P(80) {
 				path = r.Pick([]string{"doc.item.rec[0].tag", "doc.item.rec[1].tag", "doc.item.rec[0].sub.tag", "doc.item.rec[0].*", "doc.item.rec[0]", "doc.item.rec[0].sub[1].tag", "doc.item[1].rec[0].tag", "*.item.rec[0].tag"})
 			}
@@ -497,6 +516,7 @@ func genSubkeys(r *Rng, m map[string]interface{}, sep string) []string {
 func init() {
 	register(&Prop{
 		ID:        "C07",
+		Ambient:   ambientQueryOpts,
 		Rule:      "Maps of JSON/XML shape from a small key alphabet (collisions at several depths, lists of scalars/maps/mixed, lists wider than the result capacity); paths derived from the Map (follow an existing key 70%, wildcard 10%, absent key 10%, indexes on list-valued keys, out-of-range indexes); a case is non-trivial when the path yields at least one value or an error; distinct = distinct op lines",
 		Gen:       c07Gen,
 		Exec:      c07Exec,
